@@ -3,9 +3,9 @@ CONSTANTS
   Validators = {1, 2}
   Externals = {3}
   Relays = {1, 2}
-  Nodes = {1, 2}
+  Nodes = {1, 2, 3}
   DocIds = {1, 2, 3, 4, 5, 6}
-  FailKinds = {"error", "malformed", "empty"}
+  FailKinds = {"error", "malformed", "empty", "timeout", "canceled"}
   Ops = {}
   MaxInFlight = 0
   AuctionImpl = "intended"
